@@ -256,7 +256,9 @@ static Plan gen_cloudkey(uint64_t seed, const Op &opts) {
     p.cfg.setu("wseed", r.next()).setu("rseed", r.next());
     // overlap: a second writer exports secret material while the cloud key writer is still open (0 none, 1 secret key set of the
     // same keys, 2 LWE key + ring key, 3 secret key set of another key); the cloud key file is closed last
-    Op o; o.kind = "op"; o.set("k", "export").seti("transport", (int) r.below(2)).seti("overlap", r.bern(0.6) ? 1 + (int) r.below(3) : 0); p.ops.push_back(o);
+    // pre: secret material is exported BEFORE the cloud key in the same process/thread (the tutorial's order: secret.key, then cloud.key):
+    //      0 nothing, 1 secret key set of the same keys, 2 LWE key + ring key, 3 secret key set of another key
+    Op o; o.kind = "op"; o.set("k", "export").seti("transport", (int) r.below(2)).seti("overlap", r.bern(0.5) ? 1 + (int) r.below(3) : 0).seti("pre", r.bern(0.6) ? 1 + (int) r.below(3) : 0); p.ops.push_back(o);
     return p;
 }
 
@@ -277,6 +279,17 @@ static void exec_cloudkey(const Plan &p, RunResult &r) {
     Obj lp; lp.kind = K_LWEPARAMS; lp.p = (void *) kc->params->in_out_params; lp.owned = false;
     WriteLog C, S, G, K, L;
     int overlap = p.ops.empty() ? 0 : (int) p.ops[0].geti("overlap");
+    int pre = p.ops.empty() ? 0 : (int) p.ops[0].geti("pre");
+    if (pre) {
+        // history: the client has already written its secret material (same transport, same thread)
+        KeyCtx *k2 = pre == 3 ? get_key(sp, p.cfg.getu("kseed") ^ 0x99) : kc;
+        WriteLog junk; WireCfg w0 = draw_wire(wr, tr); if (sp.n > 100) { w0.wmode = 0; w0.wbuf = 1 << 16; }
+        Obj o1; o1.kind = pre == 2 ? K_LWEKEY : K_SECRETKEY; o1.p = pre == 2 ? (void *) k2->sk->lwe_key : (void *) k2->sk; o1.owned = false;
+        export_via(o1, w0, &junk);
+        if (pre == 2) { Obj o2; o2.kind = K_TGSWKEY; o2.p = (void *) k2->sk->tgsw_key; o2.owned = false; WriteLog j2; export_via(o2, w0, &j2); }
+        r.faults.add("history-secret-exported-first");
+        r.probes.add(fmt("pre_%d", pre));
+    }
     if (!overlap) export_via(ck, wc, &C);   // write recorder: every byte of every write call
     else {
         // history: two writers open at the same time (a client writing both key files, closing them at the end)
@@ -318,6 +331,31 @@ static void exec_cloudkey(const Plan &p, RunResult &r) {
     uint64_t expect = G.bytes.size() + ksparams_text + ks_bin + bk_bin;
     if (C.bytes.size() != expect)
         r.v.raise("size", "C17.size", fmt("cloud key export is %zu bytes, parameters determine %llu (params text %zu + LWEKSPARAMS %llu + ks %llu + bk %llu)", C.bytes.size(), (unsigned long long) expect, G.bytes.size(), (unsigned long long) ksparams_text, (unsigned long long) ks_bin, (unsigned long long) bk_bin));
+    // --- the binary part must be exactly the public key material held in memory: the observer serialises the key-switching and
+    //     bootstrapping rows itself (tag, common maximum variance, coefficients) and compares byte for byte, so that stray bytes in
+    //     fields a reader ignores or overwrites (e.g. the masks of the unused h = 0 rows) are seen
+    if (!r.v.set && C.bytes.size() == expect) {
+        std::string bin; bin.reserve((size_t) (ks_bin + bk_bin));
+        auto put = [&](const void *q, size_t nb) { bin.append((const char *) q, nb); };
+        const LweKeySwitchKey *kk = kc->ck->bk->ks;
+        int32_t tag = 200; double mv = -1;
+        for (int i = 0; i < kk->n * kk->t * kk->base; i++) mv = std::max(mv, kk->ks0_raw[i].current_variance);
+        put(&tag, 4); put(&mv, 8);
+        for (int i = 0; i < kk->n; i++) for (int j = 0; j < kk->t; j++) for (int h = 0; h < kk->base; h++) { const LweSample &smp = kk->ks[i][j][h]; put(smp.a, (size_t) n * 4); put(&smp.b, 4); }
+        tag = 201; mv = -1;
+        const LweBootstrappingKey *bk = kc->ck->bk;
+        for (uint64_t i = 0; i < n; i++) for (uint64_t q = 0; q < kpl; q++) mv = std::max(mv, bk->bk[i].all_sample[q].current_variance);
+        put(&tag, 4); put(&mv, 8);
+        for (uint64_t i = 0; i < n; i++) for (uint64_t q = 0; q < kpl; q++) for (uint64_t u = 0; u <= k; u++) put(bk->bk[i].all_sample[q].a[u].coefsT, (size_t) N * 4);
+        size_t text_len = (size_t) (G.bytes.size() + ksparams_text);
+        if (bin.size() != C.bytes.size() - text_len || memcmp(bin.data(), C.bytes.data() + text_len, bin.size()) != 0) {
+            size_t d = 0; while (d < bin.size() && bin[d] == C.bytes[text_len + d]) d++;
+            r.v.raise("not-public-material", "C17.public-only", fmt("binary part of the cloud key export differs from the in-memory key-switching / bootstrapping rows at byte %zu of the binary part (offset %zu of the export)", d, text_len + d));
+        }
+        r.probes.add("binary_part_compared_with_observer_serialisation");
+        // the h = 0 key-switching rows are public constants: the trivial zero sample
+        for (int i = 0; i < kk->n && !r.v.set; i++) for (int j = 0; j < kk->t; j++) { const LweSample &z = kk->ks[i][j][0]; bool zero = z.b == 0; for (uint64_t q = 0; q < n && zero; q++) zero = z.a[q] == 0; if (!zero) { r.v.raise("not-public-material", "C17.h0-rows", "a key-switching row for digit 0 is not the trivial zero sample"); break; } }
+    }
     // --- strict prefix of the secret key set export
     if (!(S.bytes.size() > C.bytes.size() && memcmp(S.bytes.data(), C.bytes.data(), C.bytes.size()) == 0))
         r.v.raise("prefix", "C17.prefix", fmt("cloud export (%zu bytes) is not a strict prefix of the secret key set export (%zu bytes)", C.bytes.size(), S.bytes.size()));
@@ -341,6 +379,7 @@ static void exec_cloudkey(const Plan &p, RunResult &r) {
     add_patterns("lwe-key", kc->s, kc->s.size());                       // the whole LWE key
     if (kc->s.size() >= 64) add_patterns("lwe-key-window", kc->s, 32);   // and windows of it
     add_patterns("ring-key", kc->S, 128);
+    add_patterns("ring-key-short", kc->S, 24);   // short prefixes/windows (24 coefficients: 96 bytes as int32)
     uint64_t searched = 0;
     for (auto &pt : pats) {
         if (degenerate(pt.bytes)) continue;
